@@ -156,6 +156,11 @@ impl<'a, 't> Gen<'a, 't> {
         let n = self.t.count(0, 8);
         let mut v = Vec::new();
         for _ in 0..n {
+            if self.t.ratio(1, 14) && self.g.want("STRING_RAW_LINE_BREAK") {
+                // the lexer accepts a line break inside the quotes: everything after it is on a new line
+                v.push('\n');
+                continue;
+            }
             if self.t.ratio(1, 7) && self.g.want("STRING_DOLLAR_ESCAPES_IN_PROGRAMS") {
                 // a '$' escape, kept verbatim (the parser keeps the text between the quotes); not
                 // used by C01 itself, which would have to decide between raw and decoded
